@@ -8,7 +8,7 @@ ID = 'C04'
 HARNESS_BIN = 'c04'
 RUN_MODULE = 'Run.C04'
 COQ_EXTRA = []
-THEOREMS = ['C04_lookup_sound', 'C04_input_digest_sound', 'C04_record_sound', 'C04_scan_exact', 'C04_scan_no_false_negative',
+THEOREMS = ['C04_lookup_sound', 'C04_input_digest_sound', 'C04_pp_key_parts_sound', 'C04_record_sound', 'C04_scan_exact', 'C04_scan_no_false_negative',
             'C04_scan_chunk_independent', 'C04_digest_chunk_independent', 'C04_mode_equivalence', 'C04_markers_complete']
 ASSUMPTIONS = [
     'BLAKE3 is modelled as an injective function H on file contents and an injective function HT on the '
@@ -22,7 +22,11 @@ ASSUMPTIONS = [
     'no_new_shadowing_file of C04_mode_equivalence; the preprocessor is an abstract function with the stated frame '
     '(pp_frame); skip_system_headers: unchanged system headers are part of that frame hypothesis',
     'C04_mode_equivalence needs env_main ⊆ env_pp (S16, repaired by the C02 worker) as the named hypothesis '
-    'env_main_subset_env_pp, and the equality of the two requests\' manifest keys (C02) as filter_env equality',
+    'env_main_subset_env_pp, and the named hypothesis pp_key_injective: the manifest (pp-level) key is injective in '
+    '(hashed arguments / request, allow-listed environment, input digest).  For the real encoding that is property '
+    'C02\'s theorem Properties/C02.v C02_pp_encode_injective (each argument / variable carries its own length prefix) '
+    'together with collision-freeness of BLAKE3; it is not imported (C02\'s generated Gen/C02HashSpec.v would become a '
+    'build dependency of C04) but checked here on the real function by the ppkey leg and end to end',
     'file system: no symlinks (symlink_metadata = metadata; `..` resolved lexically: Model/PpPaths.v canon_path); '
     'PathBuf order on the recorded includes is modelled as byte order of the rendered components',
     'the date used when recording is the date at the instant of recording (a compile that runs across midnight can '
@@ -198,31 +202,171 @@ def mon_toonew(case, out):
 
 
 # ------------------------------------------------------------------ ppkey
+# The clause "... and the include-path-affecting arguments and environment are unchanged": the manifest a request is
+# looked up in is chosen by preprocessor_cache_entry_hash_key, so two requests that differ in their hashed arguments,
+# allow-listed variables, extra hashes, ++ flag or input file must never get the same key.  Variants of one case are
+# derived from a common request by edits that keep the CONCATENATION of neighbouring items (split / merge / boundary
+# shift, an item moving between the argument list, the extra hashes and the environment, name/value shifts between
+# variables): if the separators of the encoding are weakened anywhere, such pairs collide.
+
+ARG_TOKENS = [b'-Ifoo', b'-Ibar', b'-I', b'foo', b'bar', b'-include', b'cfg.h', b'-DA=1', b'-DB=2', b'-D', b'A=1',
+              b'-isystem', b'/usr/x', b'-iquote', b'q', b'-U', b'X', b'-nostdinc', b'-std=c99', b'-m32', b'-Ifoo-Ibar',
+              b'-I.', b'-I..', b'-imacros', b'm.h', b'-idirafter', b'd', b'-DA', b'=1', b'']
+EXTRA_HASHES = [bytes('%064x' % (0xabc0 + i), 'ascii') for i in range(3)]
+OTHER_ENV = [b'PATH', b'HOME', b'LANG', b'CPATHX', b'XCPATH', b'cpath', b'SCCACHE_DIRECT', b'TERM']
+_ENV_PP = None
+
+
+def env_pp_names():
+    global _ENV_PP
+    if _ENV_PP is None:
+        from translator import c04_consts
+        import tempfile
+        with tempfile.TemporaryDirectory() as d:
+            _ENV_PP = [n.encode() for n in c04_consts.generate(pipeline.REPO, os.path.join(d, 'x.v'))['env_pp']]
+    return _ENV_PP
+
+
+def ppkey_base(rng):
+    names = env_pp_names()
+    args = [rng.choice(ARG_TOKENS) for _ in range(rng.range(0, 5))]
+    env = []
+    for _ in range(rng.range(0, 4)):
+        n = rng.choice(names) if rng.chance(2, 3) else rng.choice(OTHER_ENV)
+        env.append([n, rng.choice([b'/a', b'/b', b'/a:/b', b'', b'1', b'/aC_INCLUDE_PATH=/b', b'x=y'])])
+    extra = [rng.choice(EXTRA_HASHES) for _ in range(rng.weighted([(0, 4), (1, 2), (2, 1)]))]
+    return dict(b=rng.choice(CONTENTS[:5] + CONTENTS[7:9]), d=b'', m=5, args=args, env=env, extra=extra, pp=0)
+
+
+def ppkey_mutate(rng, v):
+    """one edit of a request; most of them keep the concatenation of what is hashed"""
+    names = env_pp_names()
+    v = dict(v, args=list(v['args']), env=[list(e) for e in v['env']], extra=list(v['extra']))
+    a, e, x = v['args'], v['env'], v['extra']
+    allowed_idx = [i for i, kv in enumerate(e) if kv[0] in names]
+    k = rng.weighted([('merge', 6), ('split', 6), ('shift', 6), ('empty_arg', 2), ('arg_to_env', 3), ('env_to_arg', 3),
+                      ('env_merge', 5), ('env_shift', 3), ('arg_to_extra', 2), ('extra_to_arg', 2), ('env_other', 3),
+                      ('swap', 2), ('drop', 2), ('add', 2), ('chg_val', 2), ('plusplus', 1), ('input', 1), ('env_swap', 1)])
+    if k == 'merge' and len(a) >= 2:
+        i = rng.below(len(a) - 1)
+        a[i:i + 2] = [a[i] + a[i + 1]]
+    elif k == 'split' and a:
+        i = rng.below(len(a))
+        if len(a[i]) >= 1:
+            c = rng.range(0, len(a[i]))
+            a[i:i + 1] = [a[i][:c], a[i][c:]]
+    elif k == 'shift' and len(a) >= 2:
+        i = rng.below(len(a) - 1)
+        s = a[i] + a[i + 1]
+        c = rng.range(0, len(s))
+        a[i:i + 2] = [s[:c], s[c:]]
+    elif k == 'empty_arg':
+        a.insert(rng.range(0, len(a)), b'')
+    elif k == 'arg_to_env' and a and b'=' in a[-1] and a[-1].split(b'=', 1)[0] in names and not x:
+        n, val = a.pop().split(b'=', 1)      # last argument "CPATH=/a" becomes the first variable
+        e.insert(0, [n, val])
+    elif k == 'env_to_arg' and allowed_idx and allowed_idx[0] == 0 and not x:
+        n, val = e.pop(0)
+        a.append(n + b'=' + val)
+    elif k == 'env_merge' and len(allowed_idx) >= 2:
+        # (N1=V1)(N2=V2) -> N1 = V1 N2 "=" V2 : same bytes without separators
+        i = rng.below(len(allowed_idx) - 1)
+        i1, i2 = allowed_idx[i], allowed_idx[i + 1]
+        if all(kv[0] not in names for kv in e[i1 + 1:i2]):
+            e[i1][1] = e[i1][1] + e[i2][0] + b'=' + e[i2][1]
+            del e[i2]
+    elif k == 'env_shift' and allowed_idx:
+        i = rng.choice(allowed_idx)
+        val = e[i][1]
+        for n in names:                      # N = V'N2=V2  ->  (N=V')(N2=V2)
+            pos = val.find(n + b'=')
+            if pos >= 0:
+                e[i:i + 1] = [[e[i][0], val[:pos]], [n, val[pos + len(n) + 1:]]]
+                break
+    elif k == 'arg_to_extra' and a and len(a[-1]) >= 64 and a[-1][-64:] in EXTRA_HASHES:
+        x.insert(0, a[-1][-64:])
+        a[-1] = a[-1][:-64]
+    elif k == 'extra_to_arg' and x:
+        a.append((a.pop() if a else b'') + x.pop(0))
+    elif k == 'env_other':
+        e.insert(rng.range(0, len(e)), [rng.choice(OTHER_ENV), rng.choice([b'1', b'/a'])])   # must NOT change the key
+    elif k == 'swap' and len(a) >= 2:
+        i = rng.below(len(a) - 1)
+        a[i], a[i + 1] = a[i + 1], a[i]
+    elif k == 'drop' and a:
+        del a[rng.below(len(a))]
+    elif k == 'add':
+        a.insert(rng.range(0, len(a)), rng.choice(ARG_TOKENS))
+    elif k == 'chg_val' and allowed_idx:
+        e[rng.choice(allowed_idx)][1] += rng.choice([b'x', b':/c'])
+    elif k == 'plusplus':
+        v['pp'] = 1 - v['pp']
+    elif k == 'input':
+        same = [c for c in BY_LEN[len(v['b'])] if c != v['b']]
+        v['b'] = rng.choice(same) if same else rng.choice(CONTENTS)
+    elif k == 'env_swap' and len(e) >= 2:
+        i = rng.below(len(e) - 1)
+        e[i], e[i + 1] = e[i + 1], e[i]
+    return v
+
+
+def ppkey_variant(v):
+    return [v['b'], v['d'], v['m'], v['args'], v['env'], v['extra'], v['pp']]
+
 
 def gen_ppkey(rng, tier):
     n = 300 if tier == 'quick' else 5000
     out = []
+    # (a) input-file variants (contents / date / mtime), fixed request
     for _ in range(n):
         vs = []
         base = rng.choice(CONTENTS)
         for _ in range(rng.range(2, 6)):
             b = base if rng.chance(1, 2) else rng.choice(BY_LEN[len(base)] if rng.chance(1, 2) else CONTENTS)
-            vs.append([b, rng.choice([b'', b'', b'1', b'2']), rng.choice([5, 5, 7])])
+            vs.append([b, rng.choice([b'', b'', b'1', b'2']), rng.choice([5, 5, 7]), [b'-Ifoo'], [], [], 0])
         out.append([1 if rng.chance(1, 3) else 0, vs])
+    # (b) fixed witnesses of the class: same concatenation, different requests
+    names = env_pp_names()
+    w = lambda args, env=(), extra=(): [b'int a;\n', b'', 5, list(args), [list(kv) for kv in env], list(extra), 0]
+    out.append([0, [w([b'-Ifoo', b'-Ibar']), w([b'-Ifoo-Ibar']), w([b'-Ifoo-', b'Ibar']), w([b'-Ifoo', b'', b'-Ibar'])]])
+    out.append([0, [w([b'-I', b'foo', b'-include', b'cfg.h']), w([b'-I', b'foo-include', b'cfg.h']), w([b'-Ifoo-includecfg.h'])]])
+    out.append([0, [w([b'-DA=1', b'-DB=2']), w([b'-DA=1-DB=2']), w([b'-DA', b'=1-DB=2'])]])
+    if b'CPATH' in names and b'C_INCLUDE_PATH' in names:
+        out.append([0, [w([], [[b'CPATH', b'/a'], [b'C_INCLUDE_PATH', b'/b']]), w([], [[b'CPATH', b'/aC_INCLUDE_PATH=/b']]),
+                        w([b'CPATH=/a'], [[b'C_INCLUDE_PATH', b'/b']]), w([b'CPATH=/aC_INCLUDE_PATH=/b'])]])
+    out.append([0, [w([b'-Ifoo' + EXTRA_HASHES[0]]), w([b'-Ifoo'], [], [EXTRA_HASHES[0]]), w([b'-Ifoo'], [], [])]])
+    # (c) PRNG: 2-6 requests derived from a common one by concatenation-preserving and ordinary edits
+    for _ in range(4 * n):
+        base = ppkey_base(rng)
+        vs = [base]
+        for _ in range(rng.range(1, 5)):
+            src = rng.choice(vs)
+            v = ppkey_mutate(rng, src)
+            if rng.chance(1, 3):
+                v = ppkey_mutate(rng, v)
+            vs.append(v)
+        out.append([1 if rng.chance(1, 5) else 0, [ppkey_variant(v) for v in vs]])
     return out
 
 
+def ppkey_relevant(itm, v, names):
+    b, d, m, args, env, extra, pp = v
+    if itm:
+        inp = (b,)
+    else:
+        inp = (b, d if PATS['date'] in b else None, m if PATS['timestamp'] in b else None)
+    return (inp, tuple(args), tuple((n, val) for n, val in env if n in names), tuple(extra), int(bool(pp)))
+
+
 def mon_ppkey(case, out):
+    """two requests get the same manifest key only if their hashed argument LISTS, allow-listed variables, extra
+    hashes, ++ flag and input file (with its date-dependent expansions) are the same - and then they do"""
     itm, vs = case
     if not isinstance(out, list) or len(out) != len(vs):
         return ['malformed implementation output %r' % (out,)]
+    names = env_pp_names()
     res = []
-
-    def relevant(v):
-        b, d, m = v
-        if itm:
-            return (b,)
-        return (b, d if PATS['date'] in b else None, m if PATS['timestamp'] in b else None)
+    rel = [ppkey_relevant(itm, v, names) for v in vs]
     for i, (v, c) in enumerate(zip(vs, out)):
         disabled = (not itm) and PATS['time'] in v[0]
         if disabled != (c == 0):
@@ -234,12 +378,69 @@ def mon_ppkey(case, out):
             if out[j] == 0:
                 continue
             same_key = out[j] == c
-            if same_key and relevant(vs[j]) != relevant(v):
-                res.append('variants %d and %d share a manifest key although the input file / its __DATE__ / __TIMESTAMP__ '
-                           'expansion differ: %r vs %r' % (j, i, vs[j], v))
-            if not same_key and relevant(vs[j]) == relevant(v):
-                res.append('variants %d and %d have different manifest keys for the same input (%r)' % (j, i, v))
+            if same_key and rel[j] != rel[i]:
+                what = [n for n, x, y in zip(('input file', 'arguments', 'allow-listed environment', 'extra hashes', '++'), rel[j], rel[i]) if x != y]
+                res.append('requests %d and %d share a preprocessor-cache (manifest) key although their %s differ: a request with '
+                           'changed include-path-affecting inputs would be answered from the other one\'s manifest: args %r env %r extra %d '
+                           'vs args %r env %r extra %d' % (j, i, ' / '.join(what), vs[j][3], vs[j][4], len(vs[j][5]), v[3], v[4], len(v[5])))
+            if not same_key and rel[j] == rel[i]:
+                res.append('requests %d and %d have different manifest keys although nothing that is hashed differs (%r)' % (j, i, v))
     return res[:4]
+
+
+def stats_ppkey(case, out):
+    itm, vs = case
+    names = env_pp_names()
+    ks = ['variants=%d' % len(vs)]
+    rel = [ppkey_relevant(itm, v, names) for v in vs]
+    cat = lambda v: b''.join(v[3]) + b''.join(v[5]) + b''.join(n + b'=' + val for n, val in v[4] if n in names)
+    for i in range(len(vs)):
+        for j in range(i):
+            if rel[i] != rel[j] and cat(vs[i]) == cat(vs[j]) and rel[i][0] == rel[j][0] and rel[i][4] == rel[j][4]:
+                ks.append('pair=same_concatenation_different_request')
+            elif rel[i] != rel[j]:
+                ks.append('pair=different')
+            else:
+                ks.append('pair=equal_request')
+    return ks
+
+
+def shrink_ppkey(case):
+    itm, vs = case
+    for i in range(len(vs)):
+        if len(vs) > 2:
+            yield [itm, vs[:i] + vs[i + 1:]]
+    for i, v in enumerate(vs):
+        for f in (3, 4, 5):
+            for k in range(len(v[f])):
+                v2 = list(v)
+                v2[f] = v[f][:k] + v[f][k + 1:]
+                yield [itm, vs[:i] + [v2] + vs[i + 1:]]
+
+
+def neigh_ppkey(case):
+    """around a disagreement: every neighbouring pair of arguments merged / every argument split"""
+    itm, vs = case
+    for v in vs:
+        a = v[3]
+        for i in range(len(a) - 1):
+            v2 = list(v)
+            v2[3] = a[:i] + [a[i] + a[i + 1]] + a[i + 2:]
+            yield [itm, [v, v2]]
+        for i in range(len(a)):
+            for c in range(1, len(a[i])):
+                v2 = list(v)
+                v2[3] = a[:i] + [a[i][:c], a[i][c:]] + a[i + 1:]
+                yield [itm, [v, v2]]
+        names = env_pp_names()
+        al = [i for i, kv in enumerate(v[4]) if kv[0] in names]
+        for x, y in zip(al, al[1:]):
+            e = [list(kv) for kv in v[4]]
+            e[x][1] = e[x][1] + e[y][0] + b'=' + e[y][1]
+            del e[y]
+            v2 = list(v)
+            v2[4] = e
+            yield [itm, [v, v2]]
 
 
 # ------------------------------------------------------------------ ppcache
@@ -833,11 +1034,37 @@ def extra(rep, known):
     elif r['decisions'] != ['hit', 'miss']:
         rep.violation('correspondence', 'e2e', 'dotdot', 'direct-mode decisions %s, expected hit then miss' % r['decisions'])
         bad += 1
-    rep.legs['e2e'] = dict(cases=len(scen) + 1, disagreements=bad, wall_s=round(time.time() - t0, 1))
-    rep.oblige('correspondence:e2e', bad == 0, '%d scenarios (real sccache server + gcc), %d bad' % (len(scen), bad))
+    # only include-path-affecting arguments / allow-listed variables change between two compiles (headers untouched),
+    # incl. pairs with the same concatenation: the second object must be what gcc alone produces for the second request
+    ascen = [(n, sw) for n in c04_e2e.ARG_SCENARIOS for sw in ((False, True) if rep.tier != 'quick' or n.endswith('shift') or n == 'I_split' else (False,))]
+    with ThreadPoolExecutor(max_workers=8) as ex:
+        ares = list(ex.map(lambda a: c04_e2e.run_arg_scenario(sccache, a[0], swap=a[1]), ascen))
+    for (n, sw), r in zip(ascen, ares):
+        rep.evaluations += 1
+        rep.traces += 1
+        rep.count('e2e.args=' + n)
+        tag = sx.dumps([b'args', n.encode(), 1 if sw else 0])
+        if any(r['rcs']) or not r['refs_differ'] or not r['first_ok']:
+            rep.violation('correspondence', 'e2e', tag, 'scenario did not run as intended: %r' % (r,))
+            bad += 1
+        elif not r['second_ok']:
+            rep.violation('property', 'e2e', tag,
+                          'only the include-path-affecting arguments / environment changed between two compiles (scenario %s%s, '
+                          'headers untouched): the object handed out by sccache for the second request differs from a direct gcc '
+                          'compile of it (direct-mode hits in the server log: %d, expected 1)' % (n, ' swapped' if sw else '', r['direct_hits']))
+            bad += 1
+        elif r['direct_hits'] != 1:
+            rep.violation('correspondence', 'e2e', tag, 'expected exactly one direct-mode hit (the repeated first request), saw %d' % r['direct_hits'])
+            bad += 1
+        else:
+            rep.distinct.add('e2e:args:%s:%d' % (n, sw))
+    rep.legs['e2e'] = dict(cases=len(scen) + 1 + len(ascen), disagreements=bad, wall_s=round(time.time() - t0, 1))
+    rep.oblige('correspondence:e2e', bad == 0, '%d scenarios (real sccache server + gcc), %d bad' % (len(scen) + 1 + len(ascen), bad))
     rep.rule.append('e2e: %d configurations x %d header edits; object of the second compile == direct gcc compile, '
-                    'and the server log\'s direct-mode hit/miss == model' % (len(cfgs), len(c04_e2e.EDITS)))
-    pipeline.log('leg e2e: %d scenarios, %d bad, %.1fs' % (len(scen), bad, time.time() - t0))
+                    'and the server log\'s direct-mode hit/miss == model; -I../inc with a decoy; %d scenarios where only '
+                    '-I/-D/-include/-isystem/CPATH/C_INCLUDE_PATH change (incl. boundary-shift pairs with equal concatenation)'
+                    % (len(cfgs), len(c04_e2e.EDITS), len(ascen)))
+    pipeline.log('leg e2e: %d scenarios, %d bad, %.1fs' % (len(scen) + 1 + len(ascen), bad, time.time() - t0))
 
 
 def legs(tier):
@@ -850,10 +1077,17 @@ def legs(tier):
             rule='PRNG texts over a 12-letter alphabet with planted patterns / near-patterns / NULs, split into reads '
                  'of 1..40 bytes in four size profiles (incl. the shape of the repaired S17 defect), plus regular-file chunkings with full '
                  '128 KiB reads and patterns on the boundaries; non-trivial = >=2 reads and a pattern present'),
-        Leg('ppkey', gen_ppkey, monitor=mon_ppkey,
-            rule='PRNG: 2-5 variants of an input file (contents with/without time-macro text, same-size variants, '
-                 'SOURCE_DATE_EPOCH, mtime) under ignore_time_macros on/off; the equality pattern of the real '
-                 'preprocessor_cache_entry_hash_key is compared with the model and with the property'),
+        Leg('ppkey', gen_ppkey, monitor=mon_ppkey, stats=stats_ppkey, shrink=shrink_ppkey, neighbours=neigh_ppkey,
+            nontrivial=lambda case, out: len(case[1]) >= 2,
+            rule='requests for one input path run through the real preprocessor_cache_entry_hash_key; the equality '
+                 'pattern of the keys is compared with the model (key = function of the argument LIST, the allow-listed '
+                 'variables, the extra hashes, the ++ flag and the input digest) and with the property. (a) 2-5 variants '
+                 'of the input file (time-macro text, same-size variants, SOURCE_DATE_EPOCH, mtime), ignore_time_macros '
+                 'on/off; (b) fixed witnesses with equal concatenation (-Ifoo -Ibar / -Ifoo-Ibar, -DA=1 -DB=2 / '
+                 '-DA=1-DB=2, CPATH=/a C_INCLUDE_PATH=/b / CPATH=/aC_INCLUDE_PATH=/b, argument/extra-hash boundary); '
+                 '(c) PRNG: 2-6 requests derived from a common one by split / merge / boundary shift of neighbouring '
+                 'arguments, empty arguments, items moving between arguments, extra hashes and environment, name/value '
+                 'shifts between allow-listed variables, plus ordinary edits and edits of non-listed variables'),
         Leg('linemarker', gen_linemarker, monitor=mon_linemarker, stats=stats_linemarker,
             shrink=shrink_linemarker,
             nontrivial=lambda case, out: isinstance(out, list) and out and out[0] == b'ok' and len(out[1]) > 0,
